@@ -146,10 +146,6 @@ func checkC17(c c17Case) (ci caseInfo, err error) {
 		sh.wire = append([]byte(nil), sh.wire[:len(sh.wire)-1]...)
 	}
 	ops := c.Ops
-	expected := make([]string, len(ops))
-	for i, op := range ops {
-		expected[i] = sh.run(op)
-	}
 	producers := 0
 	for _, op := range ops {
 		if strings.Contains(op, "Fill") || strings.Contains(op, "Set") || op == "build.List" {
@@ -158,35 +154,51 @@ func checkC17(c c17Case) (ci caseInfo, err error) {
 	}
 	ci.Nontrivial = c.Goroutines >= 2 && producers >= 1
 	ci.label("goroutines=%d", (c.Goroutines+7)/8*8)
+	// The concurrent phase comes FIRST: lazily initialised shared state (caches, memoisation) is written on
+	// first use, so a sequential warm-up would hide exactly the races this check is after. The results are
+	// collected and compared afterwards with what each operation returns alone.
+	type result struct {
+		g, round, op int
+		val          string
+	}
 	var wg sync.WaitGroup
 	start := make(chan struct{})
-	errs := make(chan error, c.Goroutines)
+	results := make([][]result, c.Goroutines)
+	panics := make(chan error, c.Goroutines)
 	for g := 0; g < c.Goroutines; g++ {
 		wg.Add(1)
 		go func(g int) {
 			defer wg.Done()
 			defer func() {
 				if r := recover(); r != nil {
-					errs <- fmt.Errorf("goroutine %d panicked: %v", g, r)
+					panics <- fmt.Errorf("goroutine %d panicked: %v", g, r)
 				}
 			}()
 			<-start
 			for r := 0; r < c.Rounds; r++ {
 				for i := range ops {
 					k := (i + g) % len(ops)
-					if got := sh.run(ops[k]); got != expected[k] {
-						errs <- fmt.Errorf("goroutine %d, round %d: %s returned %q concurrently but %q alone", g, r, ops[k], clipStr(got, 200), clipStr(expected[k], 200))
-						return
-					}
+					results[g] = append(results[g], result{g, r, k, sh.run(ops[k])})
 				}
 			}
 		}(g)
 	}
 	close(start)
 	wg.Wait()
-	close(errs)
-	for e := range errs {
+	close(panics)
+	for e := range panics {
 		return ci, e
+	}
+	expected := make([]string, len(ops))
+	for i, op := range ops {
+		expected[i] = sh.run(op)
+	}
+	for _, rs := range results {
+		for _, r := range rs {
+			if r.val != expected[r.op] {
+				return ci, fmt.Errorf("goroutine %d, round %d: %s returned %q concurrently but %q alone", r.g, r.round, ops[r.op], clipStr(r.val, 200), clipStr(expected[r.op], 200))
+			}
+		}
 	}
 	return ci, nil
 }
@@ -204,7 +216,7 @@ func genC17(t *rapid.T) c17Case {
 	n := numberEllipses(c.Tree)
 	c.Counts = map[string]int{}
 	for i := 0; i < n; i++ {
-		c.Counts[fmt.Sprintf("...[%d]", i)] = rapid.IntRange(0, 2).Draw(t, "count")
+		c.Counts[fmt.Sprintf("...[%d]", i)] = rapid.SampledFrom([]int{0, 1, 1, 2, 2, 3, 5, 9}).Draw(t, "count")
 	}
 	k := rapid.IntRange(2, 8).Draw(t, "nops")
 	for i := 0; i < k; i++ {
